@@ -95,8 +95,19 @@ fn main() {
             let thorough = args.get(3).map(|s| s == "thorough").unwrap_or(false);
             let meta = meta_for(p.id());
             quiet_panics();
-            let code = driver::check(p, thorough, meta, &mut |_m| vec![]);
+            let code = driver::check(p, thorough, meta);
             std::process::exit(code);
+        }
+        "xone" => {
+            // xone <prop> <tier> <seed> <index>: print the results-only digest of one run
+            quiet_panics();
+            let p = find(&args[2]);
+            let thorough = args[3] == "thorough";
+            let seed: u64 = args[4].parse().unwrap();
+            let idx: u64 = args[5].parse().unwrap();
+            let tag = format!("{}-{}", p.id(), if thorough { "thorough" } else { "quick" });
+            let r = p.run_one(util::run_seed(seed, &tag, idx), idx, thorough);
+            say!("{:016x}", r.xdigest.unwrap_or(0));
         }
         "replay" => {
             quiet_panics();
